@@ -131,7 +131,11 @@ def run(ctx):
         wide.append(c)
     try:
         for c in wide + res["cases"]:
-            for msg in c03_oracle(c, d, ctx.rng):
+            # the oracle loads with every reported name trusted: general-purpose callables are never handed out
+            # (safety net of the harness; a blocked resolution is an ordinary error on every entry point alike)
+            with ioarch.Recorder():
+                msgs = c03_oracle(c, d, ctx.rng)
+            for msg in msgs:
                 ofails.append((msg, dict(kind="archive", schema=c.schema, members=sorted(c.members))))
             checked += 1
             if len(ofails) > 6:
